@@ -588,6 +588,11 @@
  * @brief The maximum number of characters in one line of a CIF
  */
 #define CIF_LINE_LENGTH 2048
+#if defined(CIF_API_VERIF) && defined(CIF_API_VERIF_LINE_LENGTH)
+/* verification hook: lets a bounded-verification build shrink the line-length limit */
+#undef CIF_LINE_LENGTH
+#define CIF_LINE_LENGTH CIF_API_VERIF_LINE_LENGTH
+#endif
 
 /**
  * @brief The maximimum number of characters in a CIF data name
